@@ -41,7 +41,7 @@ Qed.
 
 Lemma tinv_ext C C' s t : (forall x, C' x = C x) -> tinv C s t -> tinv C' s t.
 Proof.
-  intros E [T1 T2 T3 T4 T5 T6 T7 T8 T9 T10 T11 T12 T13 T14 T15].
+  intros E [T1 T2 T3 T4 T5 T6 T7 T8 T9 T10 T11 T12 T13 T14 T15 T16].
   constructor; rewrite ?E; auto.
   - intros H. apply (waitinv_ext C C'); auto.
   - intros H. destruct (T11 H) as [A B]. split; [exact A|]. intros Hs. destruct (B Hs) as [B1 B2]. split; [exact B1|].
@@ -110,7 +110,7 @@ Lemma tinv_frame C C' s s' u :
   ist s' u = ist s u -> runs s' u = runs s u -> remote s' u = remote s u ->
   tinv C s u -> tinv C' s' u.
 Proof.
-  intros Eu Es Er Ew Eh Et Eru Ec Ep Ee Esl Ei Ern Erm [T1 T2 T3 T4 T5 T6 T7 T8 T9 T10 T11 T12 T13 T14 T15].
+  intros Eu Es Er Ew Eh Et Eru Ec Ep Ee Esl Ei Ern Erm [T1 T2 T3 T4 T5 T6 T7 T8 T9 T10 T11 T12 T13 T14 T15 T16].
   constructor; rewrite ?Eu, ?Eh, ?Ec, ?Ep, ?Ee, ?Esl; unfold item0 in *; rewrite ?Ei, ?Ern, ?Erm; auto.
   - rewrite Et. exact T2.
   - intros w H. rewrite Ep. auto.
@@ -269,7 +269,7 @@ Hypothesis Erm : remote s' u = remote s u.
 (* someone else acquires the free lock *)
 Lemma tinv_acquire t : holder s = None -> holder s' = Some t -> u <> t -> cur s' = cur s -> tinv C s u -> tinv C' s' u.
 Proof.
-  intros Hn Hs Ne Ec [T1 T2 T3 T4 T5 T6 T7 T8 T9 T10 T11 T12 T13 T14 T15].
+  intros Hn Hs Ne Ec [T1 T2 T3 T4 T5 T6 T7 T8 T9 T10 T11 T12 T13 T14 T15 T16].
   constructor; rewrite ?Eu, ?Ec, ?Ep, ?Ee, ?Esl; unfold item0 in *; rewrite ?Ei, ?Ern, ?Erm; auto.
   - intros H. specialize (T1 H). congruence.
   - rewrite Et. exact T2.
@@ -289,7 +289,7 @@ Qed.
 Lemma tinv_release t : holder s = Some t -> holder s' = None -> u <> t -> cur s = None -> cur s' = None ->
   c_run (C t) = None -> tinv C s u -> tinv C' s' u.
 Proof.
-  intros Hh Hs Ne Ec Ec' Hr [T1 T2 T3 T4 T5 T6 T7 T8 T9 T10 T11 T12 T13 T14 T15].
+  intros Hh Hs Ne Ec Ec' Hr [T1 T2 T3 T4 T5 T6 T7 T8 T9 T10 T11 T12 T13 T14 T15 T16].
   constructor; rewrite ?Eu, ?Ep, ?Ee, ?Esl; unfold item0 in *; rewrite ?Ei, ?Ern, ?Erm; auto.
   - intros H. specialize (T1 H). congruence.
   - rewrite Et. exact T2.
@@ -318,7 +318,7 @@ Lemma tinv_frame_pht C C' s s' t u :
   ev s' u = ev s u -> slp s' u = slp s u -> ist s' u = ist s u -> runs s' u = runs s u -> remote s' u = remote s u ->
   tinv C s u -> tinv C' s' u.
 Proof.
-  intros Ne Eu Es Er Ew Eh Et Eru Ec Ep N1 N2 Ee Esl Ei Ern Erm [T1 T2 T3 T4 T5 T6 T7 T8 T9 T10 T11 T12 T13 T14 T15].
+  intros Ne Eu Es Er Ew Eh Et Eru Ec Ep N1 N2 Ee Esl Ei Ern Erm [T1 T2 T3 T4 T5 T6 T7 T8 T9 T10 T11 T12 T13 T14 T15 T16].
   pose proof (Ep u Ne) as Epu.
   constructor; rewrite ?Eu, ?Eh, ?Et, ?Ec, ?Epu, ?Ee, ?Esl; unfold item0 in *; rewrite ?Ei, ?Ern, ?Erm; auto.
   - intros w H. destruct (Z.eq_dec w t) as [->|Nw]; [exfalso; apply (N1 u); auto|]. rewrite Ep by exact Nw. auto.
@@ -335,3 +335,17 @@ Proof.
   - rewrite in_app_iff. intros [H|[H|[]]]; [contradiction|]. subst. apply Hx. left. reflexivity.
   - apply IH. intros H. apply Hx. right. exact H.
 Qed.
+
+(* ---- facts about the classification ---- *)
+Ltac pc_cases p :=
+  destruct p; cbn; intros; try discriminate; try reflexivity;
+  repeat match goal with c : cont |- _ => destruct c | pk : popk |- _ => destruct pk end; cbn in *; try discriminate;
+  try reflexivity.
+Lemma hold_not_post p : holdpc p = true -> wst p = WPost -> False.
+Proof. pc_cases p. Qed.
+Lemma hold_not_woken p : holdpc p = true -> wst p = WWoken -> False.
+Proof. pc_cases p. Qed.
+Lemma sleep_not_hold p : sleeppc p = true -> holdpc p = false.
+Proof. pc_cases p. Qed.
+Lemma cur_hold p : curpc p = true -> holdpc p = true.
+Proof. pc_cases p. Qed.
